@@ -3,7 +3,14 @@ C15 — driver: replays an implementation trace through the model (correspondenc
 
 cfg:  ctor=default|custom hash=murmur|fnv|coll mod=<m> replicas=<int> probes=<key,...>
 ops:  add <node> | addr <node> <replicas> | addw <node> <weight> | remove <node> | get <key>
+      gadd | gaddr | gaddw …   the same through a gated Stringer: the harness stops the writer at every
+                               `String()` call made while the lock is free and lets reader goroutines look
+      storm <readers> <gets> <key,…> <op;op;…>   free-running readers against a writer program
+      build <addr>/<weight>,…  (cfg user=cache|kv) the ring as cache.New / kv.NewStore build it
 obs:  mutating: nk= nr= nn= ck= rk= g=<Get per probe> f=<Get per probe on a freshly built instance>
+      gated:    sig=<n> | <snapshot at signal 1> | … | <final observation as for a mutating op>
+      storm:    <final observation> r=<keyidx/lo/hi/answer,…>   (distinct reader observations)
+      build:    g=<addr of the node each probe is dispatched to | ->
       get:      <node> | - | PANIC
 -/
 import GoZero.Base.Trace
@@ -16,7 +23,7 @@ open GoZero
 def parseValue (tok : String) : Option Node :=
   match tok.splitOn ":" with
   | kind :: rest@(_ :: _) =>
-    if kind ∈ ["s", "i", "j", "t", "p"] then some { kind := kind, repr := ":".intercalate rest } else none
+    if kind ∈ ["s", "i", "j", "t", "p", "u", "o", "e", "x", "f", "g", "b", "z"] then some { kind := kind, repr := ":".intercalate rest } else none
   | _ => none
 
 def parseOp : List String → Option Op
@@ -73,8 +80,135 @@ def branchOf (s : CH) (m : SMap) (op : Op) : String :=
       (if w ≤ 0 then "-nonpositive" else if w > 100 then "-clamped" else "")
   | .remove _ => if isM then (if m.cnt op.repr < s.replicas then "remove-fewer-replicas" else "remove") else "remove-absent"
 
+
+/-- split observation tokens at `|` -/
+def splitBar (toks : List String) : List (List String) :=
+  toks.foldr (fun t acc => if t = "|" then [] :: acc else
+    match acc with
+    | [] => [[t]]
+    | a :: rest => (t :: a) :: rest) [[]]
+
+/-- membership of an answer in the map before or after an operation (what a concurrent Get may return) -/
+def memberEither (m m' : SMap) (o : Outcome) : Bool :=
+  match o with
+  | .node _ => memberOk m o || memberOk m' o
+  | .none => true
+  | .panic => false
+
+def isAdd : Op → Bool
+  | .remove _ => false
+  | _ => true
+
+def opNode : Op → Node
+  | .add n => n
+  | .addR n _ => n
+  | .addW n _ => n
+  | .remove n => n
+
+/-- states a reader may see while the writer runs `prog` from `s`: after j operations (`.1`) and, for an
+adding operation j, the intermediate state without the node (`.2`) -/
+def stormStates (H : Hasher) (s : CH) (prog : List Op) : List (CH × Option CH) :=
+  match prog with
+  | [] => [(s, none)]
+  | op :: rest =>
+    (s, if isAdd op then some (remove H s (opNode op)) else none) :: stormStates H (step H s op) rest
+
+/-- the implementation's own sequential answers, `S<j>/a;a;…` and `M<j>/a;a;…` -/
+def parseRef (t : String) : Option (List (Bool × Nat × List String)) :=
+  (t.splitOn ",").mapM fun e =>
+    match e.splitOn "/" with
+    | tag :: rest@(_ :: _) =>
+      let isMid := tag.startsWith "M"
+      if !(isMid || tag.startsWith "S") then none else
+      ((tag.drop 1).toString.toNat?).map fun j => (isMid, j, ("/".intercalate rest).splitOn ";")
+    | _ => none
+
+def refLookup (ref : List (Bool × Nat × List String)) (mid : Bool) (j ki : Nat) : Option String :=
+  (ref.find? fun e => e.1 == mid && e.2.1 == j).bind fun e => e.2.2[ki]?
+
+/-- is the concurrent answer for key index `ki` in window [lo, hi] one of the implementation's sequential
+answers in that window (after j operations, lo ≤ j ≤ hi; or inside adding operation j, lo ≤ j < hi)? -/
+def explainedByRef (ref : List (Bool × Nat × List String)) (ki lo hi : Nat) (ans : String) (withMid : Bool := true) : Bool :=
+  (List.range (hi + 1)).any fun j =>
+    lo ≤ j && (refLookup ref false j ki == some ans || (withMid && j < hi && refLookup ref true j ki == some ans))
+
+def parseProg (t : String) : Option (List Op) :=
+  if t = "-" then some [] else
+  (t.splitOn ";").mapM fun o => parseOp ((o.splitOn "_").filter (· ≠ ""))
+
 def parseOutcomes (s : String) : Option (List Outcome) :=
   if s = "" then some [] else (s.splitOn ",").mapM parseOutcome
+
+/-- the monitor on the answers after a mutating operation (shared by plain, gated and storm lines) -/
+def checkAnswers (r : Report) (sec line : Nat) (hash opS : String) (op : Op) (probes : List Node)
+    (m : SMap) (wasMember isMember collBefore collAfter : Bool) (prev g f : List Outcome) : Report := Id.run do
+  let mut r := r
+  for (k, o) in probes.zip g do
+    if o == .panic then
+      r := r.violation sec line s!"panic: Get {showOutcome (.node k)} panics after [{opS}]"
+    else if !memberOk m o then
+      r := r.violation sec line s!"member-only: Get {showOutcome (.node k)} returned {showOutcome o} after [{opS}]"
+  for (k, o, o') in probes.zip (g.zip f) do
+    if o != o' then
+      r := r.violation sec line s!"history-dependent: Get {showOutcome (.node k)} is {showOutcome o} but {showOutcome o'} on an instance built from the same members, after [{opS}]"
+  if collBefore && collAfter then
+    r := r.addCover "disruption-checked"
+    for (k, o, o') in probes.zip (prev.zip g) do
+      if o != o' then r := r.addCover "probe-moved"
+      if !disruptOk op.repr wasMember isMember o o' then
+        r := r.violation sec line s!"disruption: Get {showOutcome (.node k)} moved {showOutcome o} -> {showOutcome o'} by [{opS}]"
+  else
+    r := r.addCover s!"disruption-skipped-collision-{hash}"
+  if g.any (fun o => match o with | .node _ => true | _ => false) then pure () else r := r.addCover "all-none"
+  return r
+
+def kindCover (r : Report) (pre : String) (n : Node) : Report :=
+  if n.kind ∈ ["f", "g", "b", "z", "u", "o", "e", "x"] then r.addCover s!"{pre}-kind-{n.kind}" else r
+
+/-- a ring as cache.New / kv.NewStore build it: NewConsistentHash, AddWithWeight(node, conf.Weight) in order -/
+def parseConf (kind : String) (t : String) : Option (List Op) :=
+  (t.splitOn ",").mapM fun e =>
+    match e.splitOn "/" with
+    | [a, w] => do pure (.addW { kind := kind, repr := a } (← w.toInt?))
+    | _ => none
+
+def runUserSection (r : Report) (sec : Section) (user : String) (probes : List Node) : Report := Id.run do
+  let H := hasherOf "murmur" 1
+  let kind := if user = "cache" then "t" else "p"
+  let mut r := r.addCover s!"user-{user}"
+  for l in sec.lines do
+    r := { r with ops := r.ops + 1 }
+    match l.op with
+    | ["build", conf] =>
+      match parseConf kind conf with
+      | none => r := r.mismatch sec.idx l.idx "bad-op" (joinSp l.op)
+      | some ops =>
+        -- NewConsistentHash() = NewCustomConsistentHash(minReplicas, Hash)
+        let s := ops.foldl (step H) (CH.new (minReplicas : Int))
+        let m := ops.foldl (specStep s.replicas) []
+        -- cache.New with a single configured node returns that node itself (no ring)
+        let direct := user = "cache" && ops.length == 1
+        if direct then r := r.addCover "build-single-node-no-ring"
+        let outs := probes.map fun p => if direct then (match ops with | [.addW n _] => Outcome.node n | _ => .none) else get H s p
+        let mine := "g=" ++ ",".intercalate (outs.map fun o => match o with
+          | .node n => n.repr | .none => "-" | .panic => "PANIC")
+        let impl := joinSp l.obs
+        if mine ≠ impl then r := r.mismatch sec.idx l.idx mine impl
+        r := r.addCover s!"build-{ops.length}-nodes"
+        if ops.any (fun o => match o with | .addW _ w => w > 100 | _ => false) then r := r.addCover "build-weight-above-100"
+        if ops.any (fun o => match o with | .addW _ w => w ≤ 0 | _ => false) then r := r.addCover "build-weight-nonpositive"
+        if !(noCollision H m) then r := r.addCover "build-colliding-addresses"
+        if m.length < ops.length then r := r.addCover "build-duplicate-address"
+        -- monitor on the implementation's answers: dispatch goes to a configured node with virtual nodes
+        match (kv? l.obs "g").map (fun g => g.splitOn ",") with
+        | none => r := r.mismatch sec.idx l.idx "bad-obs" impl
+        | some addrs =>
+          for (k, a) in probes.zip addrs do
+            let o : Outcome := if a = "-" then .none else if a = "PANIC" then .panic else .node { kind := kind, repr := a }
+            if !direct && !memberOk m o then
+              r := r.violation sec.idx l.idx s!"member-only: {user} dispatch of {showOutcome (.node k)} goes to {a}, conf=[{conf}]"
+    | _ => r := r.mismatch sec.idx l.idx "bad-op" (joinSp l.op)
+  return r
 
 def runSection (r : Report) (sec : Section) : Report := Id.run do
   let hash := kvStr sec.cfg "hash" "murmur"
@@ -84,6 +218,9 @@ def runSection (r : Report) (sec : Section) : Report := Id.run do
   let probes ← match (if probesStr = "" then some [] else (probesStr.splitOn ",").mapM parseValue) with
     | some p => pure p
     | none => return r.mismatch sec.idx 0 "bad-cfg" probesStr
+  match kv? sec.cfg "user" with
+  | some user => return runUserSection r sec user probes
+  | none => pure ()
   let replicas ← match (kv? sec.cfg "replicas").bind String.toInt? with
     | some v => pure v
     | none => return r.mismatch sec.idx 0 "bad-cfg" "replicas"
@@ -91,6 +228,7 @@ def runSection (r : Report) (sec : Section) : Report := Id.run do
   let mut m : SMap := []
   let mut prev : List Outcome := probes.map fun _ => .none
   r := r.addCover s!"hash-{hash}"
+  for p in probes do r := kindCover r "probe" p
   for l in sec.lines do
     r := { r with ops := r.ops + 1 }
     match l.op with
@@ -107,48 +245,155 @@ def runSection (r : Report) (sec : Section) : Report := Id.run do
         | some o =>
           if !memberOk m o then
             r := r.violation sec.idx l.idx s!"member-only: Get {k} returned {impl}, members=[{joinSp (m.map fun p => s!"{showOutcome (.node p.1)}*{p.2}")}]"
+    | ["storm", _, _, keysT, progT] =>
+      match (keysT.splitOn ",").mapM parseValue, parseProg progT with
+      | some keys, some prog =>
+        r := r.addCover "storm"
+        let states := stormStates H s prog
+        let opS := joinSp l.op
+        -- the writer's program, operation by operation, with the sequential monitor on the final answers
+        let s0 := s
+        let m0 := m
+        for op in prog do
+          r := r.addCover ("storm-" ++ branchOf s m op)
+          s := step H s op
+          m := specStep s.replicas m op
+        let implState := joinSp (l.obs.filter fun t => !(t.startsWith "f=") && !(t.startsWith "r=") && !(t.startsWith "q=") && t ≠ "DATARACE")
+        let mine := observe H s probes
+        if mine ≠ implState then r := r.mismatch sec.idx l.idx mine implState
+        if l.obs.head? = some "PANIC" then
+          r := r.violation sec.idx l.idx s!"panic: [{opS}] panics: {joinSp l.obs}"
+        else
+        match (kv? l.obs "g").bind parseOutcomes, (kv? l.obs "f").bind parseOutcomes with
+        | some g, some f =>
+          for (k, o) in probes.zip g do
+            if !memberOk m o then
+              r := r.violation sec.idx l.idx s!"member-only: Get {showOutcome (.node k)} returned {showOutcome o} after [{opS}]"
+          for (k, o, o') in probes.zip (g.zip f) do
+            if o != o' then
+              r := r.violation sec.idx l.idx s!"history-dependent: Get {showOutcome (.node k)} is {showOutcome o} but {showOutcome o'} on an instance built from the same members, after [{opS}]"
+          prev := g
+        | _, _ => r := r.mismatch sec.idx l.idx "bad-obs" (joinSp l.obs)
+        -- the implementation's sequential answers (twin instance) must be the model's
+        let memberships : List SMap := (prog.foldl (fun (acc : List SMap × SMap × CH) op =>
+            let s' := step H acc.2.2 op
+            let m' := specStep s'.replicas acc.2.1 op
+            (acc.1 ++ [m'], m', s')) ([m0], m0, s0)).1
+        match parseRef (kvStr l.obs "q" "") with
+        | none => r := r.mismatch sec.idx l.idx "bad-obs" "q="
+        | some ref =>
+          let mut j := 0
+          for (sj, mid) in states do
+            let mineS := keys.map fun k => showOutcome (get H sj k)
+            if (ref.find? fun e => e.1 == false && e.2.1 == j).map (·.2.2) ≠ some mineS then
+              r := r.mismatch sec.idx l.idx s!"S{j}/{";".intercalate mineS}" "sequential reference differs"
+            match mid with
+            | some sm =>
+              let mineM := keys.map fun k => showOutcome (get H sm k)
+              if (ref.find? fun e => e.1 == true && e.2.1 == j).map (·.2.2) ≠ some mineM then
+                r := r.mismatch sec.idx l.idx s!"M{j}/{";".intercalate mineM}" "sequential reference differs"
+            | none => pure ()
+            j := j + 1
+          if l.obs.contains "DATARACE" then
+            r := r.violation sec.idx l.idx s!"concurrent: the Go race detector reports a data race between Get and [{progT}]"
+          -- the readers' observations, against the implementation's own sequential answers
+          let tuples := (kvStr l.obs "r" "").splitOn ","
+          for t in tuples do
+            if t = "" then continue
+            match t.splitOn "/" with
+            | kiS :: lo :: hi :: rest@(_ :: _) =>
+              let ans := "/".intercalate rest
+              match kiS.toNat?, kiS.toNat?.bind (fun i => keys[i]?), lo.toNat?, hi.toNat?, parseOutcome ans with
+              | some ki, some k, some lo, some hi, some o =>
+                r := r.addCover "storm-get"
+                if lo < hi then r := r.addCover "storm-get-overlapping-writer"
+                if o == .panic then
+                  r := r.violation sec.idx l.idx s!"concurrent: Get {showOutcome (.node k)} panics during [{progT}]"
+                else if !explainedByRef ref ki lo hi ans then
+                  r := r.violation sec.idx l.idx s!"concurrent: Get {showOutcome (.node k)} returned {ans} in window [{lo},{hi}] of [{progT}]: not the sequential answer of any state of the writer in that window"
+                else
+                  -- a member of some membership in the window
+                  let ok := match o with
+                    | .node _ => (List.range (hi + 1)).any fun j => lo ≤ j && (match memberships[j]? with
+                        | some mj => memberOk mj o | none => false)
+                    | _ => true
+                  if !ok then
+                    r := r.violation sec.idx l.idx s!"concurrent: Get {showOutcome (.node k)} returned {ans}, not a member at any point of window [{lo},{hi}] of [{progT}]"
+                  if refLookup ref false lo ki != some ans then r := r.addCover "storm-get-saw-later-state"
+                  if !explainedByRef ref ki lo hi ans false then r := r.addCover "storm-get-saw-gap-between-remove-and-insert"
+              | _, _, _, _, _ => r := r.mismatch sec.idx l.idx "bad-obs" t
+            | _ => r := r.mismatch sec.idx l.idx "bad-obs" t
+      | _, _ => r := r.mismatch sec.idx l.idx "bad-op" (joinSp l.op)
     | _ =>
-      match parseOp l.op with
+      let gated := match l.op with
+        | "gadd" :: _ => true | "gaddr" :: _ => true | "gaddw" :: _ => true | _ => false
+      let opToks := if gated then (l.op.head!.drop 1).toString :: l.op.drop 1 else l.op
+      match parseOp opToks with
       | none => r := r.mismatch sec.idx l.idx "bad-op" (joinSp l.op)
       | some op =>
         r := r.addCover (branchOf s m op)
+        r := kindCover r "node" (opNode op)
+        let overflows := match op with
+          | .addW _ w => wrapInt ((s.replicas : Int) * w) != (s.replicas : Int) * w
+          | _ => false
+        if overflows then r := r.addCover "addw-product-overflows"
         let wasMember := m.cnt op.repr > 0
         let collBefore := noCollision H m
+        let sPre := s
+        let mPre := m
         s := step H s op
         m := specStep s.replicas m op
         let isMember := m.cnt op.repr > 0
         let collAfter := noCollision H m
+        let segs := if gated then splitBar l.obs else [l.obs]
+        let finalObs := (segs.getLast?.getD []).filter (· ≠ "DATARACE")
+        if l.obs.contains "DATARACE" then
+          r := r.violation sec.idx l.idx s!"concurrent: the Go race detector reports a data race during [{joinSp l.op}]"
+        let opS := joinSp l.op
+        if gated then
+          -- snapshots taken by reader goroutines while the writer stood at a `String()` call with the lock free:
+          -- the code calls repr(node) before Remove's lock (state before) and between Remove and the insertion
+          r := r.addCover "gated"
+          let snaps := (segs.drop 1).dropLast
+          let sMid := remove H sPre (opNode op)
+          -- two signals (state before, then the state between Remove and the insertion): the tree as it is;
+          -- one signal (state before only): AddWithReplicas as one critical section (fixes/C15-add-single-critical-section.patch)
+          let nsig := kv? (segs.headD []) "sig"
+          let expect := if nsig = some "1" then [observe H sPre probes] else [observe H sPre probes, observe H sMid probes]
+          if nsig = some "1" then r := r.addCover "gated-one-critical-section" else r := r.addCover "gated-two-critical-sections"
+          if (nsig ≠ some "2" ∧ nsig ≠ some "1") ∨ snaps.length ≠ expect.length then
+            r := r.mismatch sec.idx l.idx "sig=2 (or sig=1)" (joinSp (segs.headD []))
+          for (e, sn) in expect.zip snaps do
+            if e ≠ joinSp sn then r := r.mismatch sec.idx l.idx e (joinSp sn)
+          if get H sMid (probes.headD default) != get H sPre (probes.headD default) ||
+              probes.any (fun p => get H sMid p != get H sPre p) then r := r.addCover "gated-gap-visible"
+          if mPre.cnt op.repr > 0 && (mPre.del op.repr).all (fun p => p.2 == 0) then r := r.addCover "gated-gap-empties-ring"
+          -- monitor on what the readers saw in the gap
+          for sn in snaps do
+            match (kv? sn "g").bind parseOutcomes with
+            | none => r := r.mismatch sec.idx l.idx "bad-obs" (joinSp sn)
+            | some g =>
+              for (k, o) in probes.zip g do
+                if o == .panic then
+                  r := r.violation sec.idx l.idx s!"concurrent: Get {showOutcome (.node k)} panics while [{opS}] is in progress"
+                else if !memberEither mPre m o then
+                  r := r.violation sec.idx l.idx s!"concurrent: Get {showOutcome (.node k)} returned {showOutcome o} while [{opS}] is in progress: a member neither before nor after"
+                else if o == .none && (mPre.del op.repr).any (fun p => p.2 > 0) then
+                  r := r.violation sec.idx l.idx s!"concurrent: Get {showOutcome (.node k)} returned none while [{opS}] is in progress although other nodes own virtual nodes"
         -- correspondence
-        let implState := joinSp (l.obs.filter fun t => !(t.startsWith "f="))
+        let implState := joinSp (finalObs.filter fun t => !(t.startsWith "f="))
         let mine := observe H s probes
         if mine ≠ implState then r := r.mismatch sec.idx l.idx mine implState
         -- monitor, on the implementation's own answers
         if l.obs.head? = some "PANIC" then
-          r := r.violation sec.idx l.idx s!"panic: [{joinSp l.op}] panics: {joinSp l.obs}"
+          r := r.violation sec.idx l.idx s!"panic: [{opS}] panics: {joinSp l.obs}"
         else
-        match (kv? l.obs "g").bind parseOutcomes, (kv? l.obs "f").bind parseOutcomes with
+        match (kv? finalObs "g").bind parseOutcomes, (kv? finalObs "f").bind parseOutcomes with
         | some g, some f =>
           if g.length ≠ probes.length ∨ f.length ≠ probes.length then
             r := r.mismatch sec.idx l.idx "bad-obs" "probe count"
           else
-            let opS := joinSp l.op
-            for (k, o) in probes.zip g do
-              if o == .panic then
-                r := r.violation sec.idx l.idx s!"panic: Get {showOutcome (.node k)} panics after [{opS}]"
-              else if !memberOk m o then
-                r := r.violation sec.idx l.idx s!"member-only: Get {showOutcome (.node k)} returned {showOutcome o} after [{opS}]"
-            for (k, o, o') in probes.zip (g.zip f) do
-              if o != o' then
-                r := r.violation sec.idx l.idx s!"history-dependent: Get {showOutcome (.node k)} is {showOutcome o} but {showOutcome o'} on an instance built from the same members, after [{opS}]"
-            if collBefore && collAfter then
-              r := r.addCover "disruption-checked"
-              for (k, o, o') in probes.zip (prev.zip g) do
-                if o != o' then r := r.addCover "probe-moved"
-                if !disruptOk op.repr wasMember isMember o o' then
-                  r := r.violation sec.idx l.idx s!"disruption: Get {showOutcome (.node k)} moved {showOutcome o} -> {showOutcome o'} by [{opS}]"
-            else
-              r := r.addCover s!"disruption-skipped-collision-{hash}"
-            if g.any (fun o => match o with | .node _ => true | _ => false) then pure () else r := r.addCover "all-none"
+            r := checkAnswers r sec.idx l.idx hash opS op probes m wasMember isMember collBefore collAfter prev g f
             prev := g
         | _, _ => r := r.mismatch sec.idx l.idx "bad-obs" (joinSp l.obs)
   return r
